@@ -5,6 +5,7 @@
 From Coq Require Import List ZArith Bool.
 From Qryn Require Import model.ReaderGoroutines model.ReaderFlow proofs.ReaderFlowProofs gen.GenGoroutinesReader model.Pipeline model.ReadPath model.ReadFwd
   model.ReadProm proofs.PipelineProofs proofs.ReadPathProofs proofs.ReadFwdProofs proofs.ReadPromProofs.
+From Qryn Require model.TailSession proofs.TailSessionProofs.   (* qualified: its step / star / init are not the pipeline's *)
 Import ListNotations.
 Open Scope Z_scope.
 
@@ -271,3 +272,43 @@ Print Assumptions subquery_check_sound_under_wraparound.
 Theorem prom_accepted_requests_bounded : forall r : prequest, prwf r = true -> engine_bounded (prom_outcome r).
 Proof. exact prom_accepted_bounded. Qed.
 Print Assumptions prom_accepted_requests_bounded.
+
+(* The live-tail session (GET /loki/api/v1/tail over a websocket; model/TailSession.v: the tail goroutine with its ticker,
+   the handler's select loop, the drainer it leaves behind, the client going away at any moment, database errors at any
+   tick). With or without the repair 5d78c0a, under EVERY schedule: whenever the tail goroutine is blocked in its send on
+   the unbuffered result channel, a receiver is there -- it never blocks forever. *)
+Theorem tail_never_blocks_on_send : forall (fixed : bool) (s : TailSession.state),
+  TailSessionProofs.star (TailSession.step fixed) TailSession.init s -> TailSession.send_stuck s = false.
+Proof. exact TailSessionProofs.never_blocked_on_send. Qed.
+Print Assumptions tail_never_blocks_on_send.
+
+(* Once the client has gone away, or the tail goroutine has ended after a database error: every schedule is finite (time
+   passes only when no channel operation is ready) and can only stop with the tail goroutine, the handler and the
+   drainer all returned. *)
+Theorem tail_session_winds_down : forall s : TailSession.state,
+  TailSessionProofs.star (TailSession.step true) TailSession.init s -> TailSession.winding s = true ->
+  Acc (fun s' s0 => TailSession.ustep true s0 s') s /\
+  forall s', TailSessionProofs.star (TailSession.ustep true) s s' -> TailSession.usuccs true s' = [] -> TailSession.all_done s' = true.
+Proof. exact TailSessionProofs.winds_down. Qed.
+Print Assumptions tail_session_winds_down.
+
+(* No busy loop since 5d78c0a: while no ticker fires and the client does nothing, only finitely many steps happen in any
+   reachable state. Before the repair this was false: after a database error the handler received from the closed
+   channel and wrote an empty message, again and again (replayed: 2999 empty websocket messages in 14 ms). *)
+Theorem tail_has_no_busy_loop :
+  (forall s : TailSession.state, TailSessionProofs.star (TailSession.step true) TailSession.init s ->
+     Acc (fun s' s0 => TailSession.istep true s0 s') s) /\
+  (TailSessionProofs.star (TailSession.step false) TailSession.init TailSessionProofs.spinning /\ TailSession.istep false TailSessionProofs.spinning TailSessionProofs.spinning /\
+   ~ TailSession.istep true TailSessionProofs.spinning TailSessionProofs.spinning).
+Proof. split; [exact TailSessionProofs.no_busy_loop | exact TailSessionProofs.busy_loop_before_fix]. Qed.
+Print Assumptions tail_has_no_busy_loop.
+
+(* int64 wrap-around in the window arithmetic (fix 7e7939d): for every matrix request the planner accepts, end - start
+   fits int64 nanoseconds, so FixPeriodPlanner's _to - _from (which wraps) is the true length -- start = -5e18, end = 5e18,
+   step = 1e6 s had 10,000 points by the saturating check and a negative length in the allocation: makeslice panic in a
+   goroutine nothing recovers, process exit (replayed; corpus matrix-window-wraps-int64). *)
+Theorem accepted_matrix_window_fits_int64 : forall sh0 q from_s to_s ms lim sh c, 0 < q_dur_s q ->
+  plan sh0 q from_s to_s ms lim = PRun sh c -> is_matrix sh = true ->
+  f_to (p_fix c) - f_from (p_fix c) < int64_limit.
+Proof. exact plan_window_fits. Qed.
+Print Assumptions accepted_matrix_window_fits_int64.
